@@ -301,6 +301,22 @@ def resetO (cls : Classifier) (obs : Obs) (s : Store) : Store × Except Exc Unit
 
 def reset (cls : Classifier) (s : Store) : Store × Except Exc Unit := resetO cls Obs.silent s
 
+/-- The caller assigns one of the store's PUBLIC attributes (`store.atp = v`, `store.max_debt = v`, ...; a non-negative int).
+    Nothing else happens: no `_update_state`, no bookkeeping.  A configuration change between two histories, not an
+    operation of the ledger: every history theorem starts from an arbitrary well-formed colony, so it covers what follows. -/
+inductive Field where
+  | atp | gtp | nadh | maxAtp | maxGtp | maxNadh | maxDebt
+  deriving Repr, DecidableEq
+
+def Store.assign (s : Store) : Field → Nat → Store
+  | .atp, v => { s with atp := v }
+  | .gtp, v => { s with gtp := v }
+  | .nadh, v => { s with nadh := v }
+  | .maxAtp, v => { s with maxAtp := v }
+  | .maxGtp, v => { s with maxGtp := v }
+  | .maxNadh, v => { s with maxNadh := v }
+  | .maxDebt, v => { s with maxDebt := v }
+
 /-! ### histories over a colony of stores -/
 
 inductive Op where
